@@ -1319,6 +1319,18 @@ impl Element {
                                     );
                                 } else {
                                     let value = unwrap_option_value_for_attr(ps, value, &attr_name);
+                                    // only `{{ ... }}` is a valid template data
+                                    // (an unquoted word is not handled by the object value parser)
+                                    let value = match value {
+                                        Value::Static { value, location } if !value.is_empty() => {
+                                            ps.add_warning(
+                                                ParseErrorKind::InvalidAttributeValue,
+                                                location.clone(),
+                                            );
+                                            Value::new_empty(location.start)
+                                        }
+                                        value => value,
+                                    };
                                     *data = (attr_name.location(), value);
                                 }
                             }
